@@ -283,3 +283,146 @@ Proof.
   cbv zeta. repeat split; try reflexivity; try (vm_compute; congruence).
   intros j Hj. destruct j as [|[|[|j]]]; cbn; try lia; discriminate.
 Qed.
+
+(* ---------------------------------------------------------------------------------------------- *)
+(** ** 7. Betweenness without a size bound (Proofs/BrandesProofs.v; supersedes the bounded
+       [brandes_exact_small_partial] above)
+
+    Vocabulary. [p : graph] is the 0/1 pattern ([row p u] = stored column indices of row u).
+    Hypotheses: every stored column index is < n, and no row stores the same column twice (the
+    specification's walk matrix is 0/1, the code would count a duplicated CSR entry twice). No
+    connectivity hypothesis is needed: unreachable nodes contribute 0.
+    [brandes_forward p s] = [brandes_bfs n p st0 []], the BFS loop of the code from source s (st0: queue
+    [s], dists -1 except dists[s] = 0, sigma 0 except sigma[s] = 1, preds empty), returning the final
+    state and the stack [seen]; [hop p (single_source n s) v k]: k is the least number of arcs of a walk
+    from s to v (C10's vocabulary); [shortest_paths p s t d]: the explicit list of the walks of d arcs
+    from s to t, as lists of d + 1 nodes; [back_step] is the body of the backward while loop. *)
+From SKN Require Import Proofs.BrandesProofs.
+Set Warnings "-notation-overridden".
+
+(** What [shortest_paths] enumerates (independent specification of "path"), without repetition. *)
+Theorem shortest_paths_spec (p : graph) (s t d : nat) (l : list nat) :
+  In l (shortest_paths p s t d) <-> length l = S d /\ hd 0 l = s /\ last l 0 = t /\ is_walk p l.
+Proof. exact (shortest_paths_spec_proof p s t d l). Qed.
+Print Assumptions shortest_paths_spec.
+
+Theorem shortest_paths_nodup (p : graph) (s t d : nat) :
+  (forall u, NoDup (row p u)) -> NoDup (shortest_paths p s t d).
+Proof. exact (shortest_paths_nodup_proof p s t d). Qed.
+Print Assumptions shortest_paths_nodup.
+
+(** Forward phase: the queue empties within the n pops allowed; dists are the exact hop distances
+    (-1 = unreachable); sigma[v] = NUMBER of shortest paths from s to v (0 when unreachable); preds[v]
+    lists, each once, exactly the in-neighbours u of v with dist u + 1 = dist v. *)
+Theorem brandes_sigma_counts_shortest_paths (p : graph) (s : nat) :
+  (forall u v, In v (row p u) -> v < length p) -> (forall u, NoDup (row p u)) -> s < length p ->
+  let st := fst (brandes_forward p s) in
+  let seen := snd (brandes_forward p s) in
+  b_queue st = [] /\ NoDup seen /\
+  forall v, v < length p ->
+    (forall k, nthz (b_dists st) v = Z.of_nat k <-> hop p (single_source (length p) s) v k) /\
+    (nthz (b_dists st) v = (-1)%Z <-> forall k, ~ reachk p (single_source (length p) s) k v) /\
+    (In v seen <-> (0 <= nthz (b_dists st) v)%Z) /\
+    (forall k, hop p (single_source (length p) s) v k ->
+       nthz (b_sigma st) v = Z.of_nat (length (shortest_paths p s v k))) /\
+    (nthz (b_dists st) v = (-1)%Z -> nthz (b_sigma st) v = 0%Z) /\
+    NoDup (nth v (b_preds st) []) /\
+    (forall u, In u (nth v (b_preds st) []) <->
+       In v (row p u) /\ (0 <= nthz (b_dists st) u)%Z /\ (nthz (b_dists st) u + 1 = nthz (b_dists st) v)%Z).
+Proof. exact (brandes_sigma_counts_shortest_paths_proof p s). Qed.
+Print Assumptions brandes_sigma_counts_shortest_paths.
+
+(** The pair dependency sigma_st(v) / sigma_st of the specification, in explicit path counts, and the
+    identity sigma_st(v) = sigma_sv * sigma_vt: among the walks of a + b arcs from u to t, those whose
+    a-th node is v are as many as (walks of a arcs u -> v) x (walks of b arcs v -> t). *)
+Theorem pair_dependency_paths (p : graph) (s t v dt dv : nat) :
+  (forall u w, In w (row p u) -> w < length p) -> (forall u, NoDup (row p u)) ->
+  s < length p -> t < length p -> v < length p ->
+  hop p (single_source (length p) s) t dt -> hop p (single_source (length p) s) v dv ->
+  (pair_dependency p s t v ==
+   if Nat.leb dv dt
+   then qn (length (shortest_paths p s v dv)) * qn (length (shortest_paths p v t (dt - dv)))
+        / qn (length (shortest_paths p s t dt))
+   else 0)%Q.
+Proof. exact (pair_dependency_paths_proof p s t v dt dv). Qed.
+Print Assumptions pair_dependency_paths.
+
+Theorem paths_through (p : graph) (a b u v t : nat) :
+  length (filter (fun l => Nat.eqb (nth a l 0) v) (shortest_paths p u t (a + b))) =
+  length (shortest_paths p u v a) * length (shortest_paths p v t b).
+Proof. exact (paths_through_proof p a b u v t). Qed.
+Print Assumptions paths_through.
+
+(** Backward phase (the code pops [seen], i.e. the reverse discovery order): the accumulated delta
+    satisfies Brandes' recurrence over the predecessor lists; on every node reachable from s it IS the
+    dependency sum_{t <> v} sigma_st(v) / sigma_st (Brandes' theorem); that dependency is 0 on the
+    unreachable nodes; and [brandes_source] adds exactly it to scores[v] for v <> s. *)
+Theorem brandes_delta_recurrence (p : graph) (s : nat) (sc0 : list Q) :
+  (forall u v, In v (row p u) -> v < length p) -> (forall u, NoDup (row p u)) ->
+  s < length p -> length sc0 = length p ->
+  let st := fst (brandes_forward p s) in
+  let seen := snd (brandes_forward p s) in
+  let acc := fold_left (back_step s (b_sigma st) (b_preds st)) seen (repeat 0%Q (length p), sc0) in
+  let dep := fun v => bsum (length p) (fun t => if Nat.eqb t v then 0%Q else pair_dependency p s t v) in
+  brandes_source p sc0 s = snd acc /\
+  (forall v, v < length p ->
+     (V (fst acc) v == bsum (length p) (fun w =>
+        if memn v (nth w (b_preds st) [])
+        then zq (nthz (b_sigma st) v) / zq (nthz (b_sigma st) w) * (1 + V (fst acc) w) else 0))%Q) /\
+  (forall v, v < length p -> (0 <= nthz (b_dists st) v)%Z -> (V (fst acc) v == dep v)%Q) /\
+  (forall v, v < length p -> (nthz (b_dists st) v < 0)%Z -> (dep v == 0)%Q) /\
+  (forall v, v < length p -> (V (snd acc) v == V sc0 v + (if Nat.eqb v s then 0 else dep v))%Q).
+Proof. exact (brandes_delta_recurrence_proof p s sc0). Qed.
+Print Assumptions brandes_delta_recurrence.
+
+(** Betweenness.fit as coded = the textbook betweenness, for EVERY size: the sum over ordered pairs
+    (s, t), s <> v <> t, s <> t, of sigma_st(v) / sigma_st, halved exactly when the adjacency is
+    symmetric.  ([check_connected] of the code is not needed for the identity.) *)
+Theorem brandes_exact (g : wgraph) :
+  (forall u v, In v (row (pattern g) u) -> v < length g) ->
+  (forall u, NoDup (row (pattern g) u)) ->
+  length (betweenness g) = length g /\
+  forall v, v < length g ->
+    (V (betweenness g) v == V (betweenness_spec g) v)%Q /\
+    (V (betweenness_spec g) v ==
+       let n := length g in
+       let ordered := bsum n (fun s => bsum n (fun t =>
+          if Nat.eqb s v || Nat.eqb t v || Nat.eqb s t then 0 else pair_dependency (pattern g) s t v)) in
+       if is_symmetric g then ordered / 2 else ordered)%Q.
+Proof. exact (brandes_exact_explicit g). Qed.
+Print Assumptions brandes_exact.
+
+(** The same with the hypotheses decided by the executable [rows_ok] (used by the harness). *)
+Theorem brandes_exact_rows_ok (g : wgraph) :
+  rows_ok (pattern g) = true ->
+  length (betweenness g) = length g /\
+  forall v, v < length g -> (V (betweenness g) v == V (betweenness_spec g) v)%Q.
+Proof. exact (brandes_exact_checked g). Qed.
+Print Assumptions brandes_exact_rows_ok.
+
+(** Undirected case: when the stored pattern is symmetric and [is_symmetric] holds (so the code
+    halves), the score of v is the sum over UNORDERED pairs {s, t} (t < s, each once), s <> v <> t,
+    of sigma_st(v) / sigma_st. *)
+Theorem brandes_undirected (g : wgraph) :
+  (forall u v, In v (row (pattern g) u) -> v < length g) ->
+  (forall u, NoDup (row (pattern g) u)) ->
+  (forall u v, In v (row (pattern g) u) <-> In u (row (pattern g) v)) ->
+  is_symmetric g = true ->
+  forall v, v < length g ->
+    (V (betweenness g) v ==
+     bsum (length g) (fun s => bsum s (fun t =>
+       if Nat.eqb s v || Nat.eqb t v then 0 else pair_dependency (pattern g) s t v)))%Q.
+Proof. exact (brandes_undirected_proof g). Qed.
+Print Assumptions brandes_undirected.
+
+(** Non-vacuity: a directed diamond with a tail (two shortest paths 0 -> 3 and 0 -> 4, not connected
+    strongly, not symmetric) and an undirected 4-cycle (symmetric: halved) meet the hypotheses. *)
+Example brandes_nonvacuous :
+  let g := graph_of_arcs 5 [(0,1);(0,2);(1,3);(2,3);(3,4)] in
+  let h := graph_of_arcs 4 [(0,1);(1,0);(1,2);(2,1);(0,3);(3,0);(3,2);(2,3)] in
+  rows_ok (pattern g) = true /\ is_symmetric g = false /\ betweenness g = [0; 1; 1; 3; 0]%Q /\
+  b_sigma (fst (brandes_forward (pattern g) 0)) = [1; 1; 1; 2; 2]%Z /\
+  b_preds (fst (brandes_forward (pattern g) 0)) = [[]; [0]; [0]; [1; 2]; [3]] /\
+  shortest_paths (pattern g) 0 4 3 = [[0; 1; 3; 4]; [0; 2; 3; 4]] /\
+  rows_ok (pattern h) = true /\ is_symmetric h = true /\ betweenness h = [1 # 2; 1 # 2; 1 # 2; 1 # 2]%Q.
+Proof. cbv zeta. repeat split; vm_compute; reflexivity. Qed.
